@@ -8,8 +8,13 @@ in every process.  The runtime facts the model cannot exhibit (CPython's `id`/se
 allocation history, protobuf's deterministic serialisation, md5) are covered by the correspondence:
 N interpreters with different PYTHONHASHSEED and random unrelated work, byte-identical packages and
 netlists.
+`ordered_portrefs_independent`: the key as written, `(instance name, port name)` compared as tuples, identifies the
+references held by the instances of one module (instance names are distinct there) — and `instance_name_alone_is_not_a_key`:
+the instance name alone does not.
 -/
 import Hdl21Model.Order
+import Mathlib.Data.Prod.Lex
+import Mathlib.Data.String.Basic
 namespace Hdl21.Props.C12
 open Hdl21.Order
 
@@ -45,5 +50,43 @@ theorem ordered_perm (key : α → κ) (l : List α) : (ordered key l).Perm l :=
 /-! ### Non-vacuity: three references, two enumeration orders -/
 example : ordered (fun (p : Nat × Nat) => p.1 * 100 + p.2) [(2, 1), (1, 2), (1, 1)]
         = ordered (fun (p : Nat × Nat) => p.1 * 100 + p.2) [(1, 1), (2, 1), (1, 2)] := by decide
+
+/-! ## the key `ordered()` really uses -/
+
+/-- a reference to a port: the instance (by identity) and the port's name -/
+structure PRef where
+  inst : Nat
+  port : String
+  deriving DecidableEq
+
+/-- the key of `portref.ordered`: `(p.inst.name, p.portname)`, compared as Python compares tuples -/
+def refKey (name : Nat → String) (p : PRef) : String ×ₗ String := toLex (name p.inst, p.port)
+
+/-- Within one module — instance names distinct — that key tells any two references apart. -/
+theorem refKey_identifies (name : Nat → String) (insts : List Nat) (hinj : ∀ a ∈ insts, ∀ b ∈ insts, name a = name b → a = b)
+    (a b : PRef) (ha : a.inst ∈ insts) (hb : b.inst ∈ insts) (h : refKey name a = refKey name b) : a = b := by
+  unfold refKey at h
+  have h' := toLex.injective h
+  simp only [Prod.mk.injEq] at h'
+  obtain ⟨i, p⟩ := a
+  obtain ⟨j, q⟩ := b
+  simp only at h' ha hb
+  have := hinj i ha j hb h'.1
+  subst this
+  rw [h'.2]
+
+/-- **`ordered()` as written**: the references held by instances of one module come out in one order whatever order the
+    set was enumerated in. -/
+theorem ordered_portrefs_independent (name : Nat → String) (insts : List Nat)
+    (hinj : ∀ a ∈ insts, ∀ b ∈ insts, name a = name b → a = b) (l l' : List PRef) (h : l.Perm l')
+    (hl : ∀ p ∈ l, p.inst ∈ insts) :
+    ordered (refKey name) l = ordered (refKey name) l' :=
+  order_independent (refKey name) l l' h (fun a ha b hb hk => refKey_identifies name insts hinj a b (hl a ha) (hl b hb) hk)
+
+/-- Sorting by the instance name alone is *not* enough: two ports of one instance keep the order the set happened to have. -/
+theorem instance_name_alone_is_not_a_key :
+    ∃ (l l' : List PRef), l.Perm l' ∧
+      ordered (fun p : PRef => p.inst) l ≠ ordered (fun p : PRef => p.inst) l' :=
+  ⟨[⟨0, "p"⟩, ⟨0, "q"⟩], [⟨0, "q"⟩, ⟨0, "p"⟩], List.Perm.swap _ _ _, by decide⟩
 
 end Hdl21.Props.C12
